@@ -80,7 +80,11 @@ RemoveOverrides(c, m, a) ==
   LET m1 == SelectSeq(m, LAMBDA e : e.id \notin SeqToSet(a.overrides))
       \* "override anything that can override us": entries of arguments whose overrides name `a`
       m2 == SelectSeq(m1, LAMBDA e : ~(HasArg(c, e.id) /\ a.id \in SeqToSet(ArgOf(c, e.id).overrides)))
-  IN m2
+      \* an overridden argument no longer makes its groups present: its occurrences leave the groups' entries, and a group
+      \* entry without occurrences leaves the matcher (remove_from_groups)
+      gone == {ArgOf(c, m[i].id).idb : i \in {j \in 1..Len(m) : HasArg(c, m[j].id) /\ \A k \in 1..Len(m2) : m2[k].id # m[j].id}}
+      m3 == [i \in 1..Len(m2) |-> IF m2[i].grp THEN [m2[i] EXCEPT !.occ = SelectSeq(@, LAMBDA g : \A v \in SeqToSet(g) : v \notin gone)] ELSE m2[i]]
+  IN SelectSeq(m3, LAMBDA e : ~(e.grp /\ e.occ = <<>>))
 
 RECURSIVE StartGroups(_, _, _, _)
 StartGroups(m, gs, aid, src) ==
